@@ -4,7 +4,15 @@
 (*                                                                         *)
 (* A generated behaviour is                                                *)
 (*   init record (initial database, jitter choice, expiry configuration)   *)
-(*   at most MaxOps operations out of Ops (names of operations offered)    *)
+(*   at most MaxOps operations out of Ops (names of operations offered);   *)
+(*      two of them are composite (one generator step, several operations  *)
+(*      of CacheAside, each with its own record):                          *)
+(*        "warm"  (only as the first step, and then always) reads every id  *)
+(*                and every name of the audit, so that the cache is full   *)
+(*        "burst" several writes (or several DelCache calls) on DIFFERENT   *)
+(*                ids within one second -- if the node is down, that many  *)
+(*                removals fail in the same second and their retries fall   *)
+(*                due together                                             *)
 (*   a "finish" step: every node becomes reachable again and time advances *)
 (*      past every pending retry plus TailTicks further seconds (so that a *)
 (*      removal executed again after it succeeded is observed)             *)
@@ -17,7 +25,12 @@
 EXTENDS CacheAside, Json
 
 CONSTANTS MaxOps,     \* operations per behaviour
-          Ops,        \* subset of {"qrow","qindex","put","delete","delcache","setcache","adv","down","up"}
+          Ops,        \* subset of {"qrow","qindex","put","delete","delcache","setcache","adv","down","up",
+                      \*            "warm","burst"}
+          ReadIds,    \* ids offered to qrow steps (the audit reads all of AuditIds)
+          ReadNames,  \* names offered to qindex steps
+          Bursts,     \* set of sets of ids: the id sets offered to "burst"
+          BurstKinds, \* subset of {"put", "delcache"}
           MaxDown,    \* bound on "down" operations per behaviour
           TailTicks,  \* seconds observed after the last pending retry
           AuditIds,   \* sequence of ids read at the end
@@ -33,7 +46,9 @@ Snap(st) == [k \in Keys |-> IF st.cache[k].kind = "none" THEN 0
                             ELSE (st.cache[k].exp - st.clk) * 10 + KindCode(st.cache[k].kind)]
 
 \* the observable part of a step result + the cache snapshot after it (r is a value here)
-Rec(r) == [f \in (DOMAIN r) \ ({"s", "sets"} \cup (IF r.res = "row" THEN {} ELSE {"row"})) |-> r[f]]
+\* (a write's `pre` -- the read inside its statement callback -- is left out when there is none)
+Rec(r) == [f \in (DOMAIN r) \ ({"s", "sets"} \cup (IF r.res = "row" THEN {} ELSE {"row"})
+                                \cup (IF "pre" \in DOMAIN r /\ r.pre.op = "none" THEN {"pre"} ELSE {})) |-> r[f]]
             @@ [cache |-> Snap(r.s), clk |-> r.s.clk]
 
 AuditOps == [i \in 1..Len(AuditIds) |-> [op |-> "qrow", id |-> AuditIds[i]]]
@@ -44,9 +59,55 @@ GInit == /\ Init
                       db |-> {RowOut(i, s.db[i]) : i \in {x \in Ids : s.db[x] # NoRow}}]>>
          /\ nops = 0 /\ ndown = 0 /\ fin = FALSE /\ aud = 0
 
+\* the simple operations offered by the generator
+GOps(st) == {x \in OpsOf(st) : /\ x.op \in Ops
+                               /\ x.op = "qrow" => x.id \in ReadIds
+                               /\ x.op = "qindex" => x.name \in ReadNames}
+
+MaxId == CHOOSE m \in Ids : \A j \in Ids : j <= m
+IdSeq(S) == SelectSeq([i \in 1..MaxId |-> i], LAMBDA i : i \in S)
+OtherData(d) == CHOOSE x \in Datas : x # d
+
+\* the operations of a burst on the id set S in state st, in increasing order of the ids: every
+\* existing row of S gets other data (same name), or the primary key of every id of S is removed
+\* from the cache by hand.  (The ids differ, so the descriptors can be computed up front.)
+BurstOps(st, S, kind, cx) ==
+  LET ids == IdSeq(IF kind = "put" THEN {i \in S : st.db[i] # NoRow} ELSE S)
+  IN [j \in 1..Len(ids) |->
+        IF kind = "put"
+          THEN [op |-> "put", id |-> ids[j], cx |-> cx, pre |-> [op |-> "none"],
+                row |-> [name |-> st.db[ids[j]].name, data |-> OtherData(st.db[ids[j]].data)]]
+          ELSE [op |-> "delcache", k |-> PK(ids[j]), cx |-> cx]]
+
+\* a chain of operations within one generator step (each result is bound once as a value)
+RECURSIVE ChainFrom(_, _, _, _)
+ChainFrom(st, ops, i, acc) ==
+  IF i > Len(ops)
+    THEN s' = st /\ hist' = acc
+    ELSE \E r \in {StepOf(st, ops[i])} : r.s.nfail <= MaxFail /\ ChainFrom(r.s, ops, i + 1, Append(acc, Rec(r)))
+
+ChainOut(name) == [op |-> name, res |-> "ok", row |-> NoRowOut, qp |-> 0, qi |-> 0, loose |-> FALSE, sets |-> {}, dels |-> {}]
+
+GWarm ==
+  /\ ~fin /\ nops = 0 /\ nops < MaxOps /\ "warm" \in Ops
+  /\ ChainFrom(s, AuditOps, 1, hist)
+  /\ out' = ChainOut("warm")
+  /\ nops' = nops + 1
+  /\ UNCHANGED <<ndown, fin, aud>>
+
+GBurst ==
+  /\ ~fin /\ nops < MaxOps /\ "burst" \in Ops /\ ("warm" \in Ops => nops > 0)
+  /\ \E S \in Bursts, kind \in BurstKinds, cx \in Ctxs :
+        \E ops \in {BurstOps(s, S, kind, cx)} :
+           /\ Len(ops) >= 2
+           /\ ChainFrom(s, ops, 1, hist)
+  /\ out' = ChainOut("burst")
+  /\ nops' = nops + 1
+  /\ UNCHANGED <<ndown, fin, aud>>
+
 GStep ==
-  /\ ~fin /\ nops < MaxOps
-  /\ \E o \in {x \in OpsOf(s) : x.op \in Ops} :
+  /\ ~fin /\ nops < MaxOps /\ ("warm" \in Ops => nops > 0)
+  /\ \E o \in GOps(s) :
         /\ (o.op = "down" => ndown < MaxDown)
         /\ \E r \in {StepOf(s, o)} :
               /\ r.s.nfail <= MaxFail
@@ -80,7 +141,7 @@ Finish ==
           /\ AuditFrom(a.s, 1, Append(hist, [Rec(a) EXCEPT !.op = "finish"]))
   /\ UNCHANGED <<nops, ndown>>
 
-GNext == GStep \/ Finish
+GNext == GStep \/ GWarm \/ GBurst \/ Finish
 
 GSpec == GInit /\ [][GNext]_gvars
 
